@@ -169,6 +169,23 @@ fn main() {
             }
             format!("{{\"mode\":\"f64\",\"scenario\":{},\"out\":{}}}", verif_sym::json_str(scenario), out.to_json())
         }
+        "f32" => {
+            // native single-precision run of the generic scenarios (the properties quantify over both scalar widths)
+            let mut m = HashMap::new();
+            for (n, v) in &inputs {
+                if let Some(q) = verif_sym::parse_q(v) {
+                    m.insert(n.clone(), verif_sym::q_to_f64(&q));
+                }
+            }
+            *F64_INPUTS.lock().unwrap() = Some(m);
+            let mut out = Out::<f32>::new();
+            let res = std::panic::catch_unwind(std::panic::AssertUnwindSafe(|| run_scenario::<f32>(scenario, &cfg, &mut out)));
+            if let Err(e) = res {
+                let msg = e.downcast_ref::<String>().cloned().or_else(|| e.downcast_ref::<&str>().map(|s| s.to_string())).unwrap_or_default();
+                out.fact("no_panic", false, format!("panic during native f32 run: {msg}"));
+            }
+            format!("{{\"mode\":\"f32\",\"scenario\":{},\"out\":{}}}", verif_sym::json_str(scenario), out.to_json())
+        }
         _ => panic!("mode"),
     };
     std::fs::write(outp, body).expect("write output");
